@@ -144,6 +144,11 @@ def check(ctx):
                    "new name term: %s" % show(rhs)[:300])
     with ctx.only(lambda k: k == "grouping"):
         c03.grouping(ctx)
+    # C04.7: `instantiations of one generic definition still share one path` and `only types that shared a path with a DIFFERENTLY shaped
+    # type are renamed` both need the shape comparator to compare CORRESPONDING fields of the two operands (a necessary condition for
+    # answering `equal` on equal shapes): the symmetric-coverage instances of C03.2 are evaluated here under C04's own rule id.
+    with ctx.only(lambda k: k.startswith("comparator-coverage/") or k.startswith("comparator-length/") or k.startswith("comparator-arm/") or k.startswith("ground/")):
+        c03.comparator(ctx, "C04.7")
     # ---- C04.5 sanity first
     first = fn["body"]["b"]["stmts"][0]
     ft = show(N.term(first["e"])) if first.get("k") in ("SSemi", "SExpr") else "?"
